@@ -126,6 +126,19 @@ def gen_requests(tier, rng, kinds=KINDS, endpoints=None, n_random=None, avoid_cr
                             l = req_line(variants[i % 2], kind, auth, IDS[i % 3], secret, url, defred, a1, a2, a3, scopes, extras)
                             if l:
                                 out.append((l, "product/" + kind))
+    # every printable ASCII character on its own, as the only special character of id / secret /
+    # a value / an extra (a fast path keyed on a character class shows up only this way)
+    for code in range(0x20, 0x7F):
+        ch = chr(code)
+        i += 1
+        kind = kinds[i % len(kinds)]
+        eps = endpoints or (REVOKE_ENDPOINTS if kind == "revoke" else eps_default)
+        a1, a2, a3 = kind_args(kind, rng, ["v" + ch + "w"])
+        for auth in "BR":
+            l = req_line(variants[i % 2], kind, auth, "my" + ch + "client", "sec" + ch + "ret" if code % 3 else ch, eps[0], "https://client/cb", a1, a2, a3,
+                         ["s" + ch + "c"] if ch != " " else ["sc"], [("k" + ch, ch + "v")])
+            if l:
+                out.append((l, "single-character/" + kind))
     # random heavy strings
     n = n_random if n_random is not None else (2500 if tier == "quick" else 120000)
     for _ in range(n):
@@ -173,7 +186,7 @@ def auth_ops(rng, strings):
         elif k == 1:
             ops.append("SS:" + C.tlist([s() for _ in range(rng.randint(0, 3))]))
         elif k == 2:
-            ops.append("E:%s:%s" % (C.tb(s()), C.tb(s())))
+            ops.append("E:%s:%s" % (C.tb(rng.choice(["resource", "audience", s()])), C.tb(s())))
         elif k == 3:
             ops.append("I")
         elif k == 4:
@@ -203,7 +216,15 @@ def gen_authurls(tier, rng):
              ["P:" + C.tb(VERIFIERS[0])], ["PP:" + C.tb(VERIFIERS[2])], ["U:" + C.tb("https://over/ride")],
              ["S:" + C.tb("read"), "S:" + C.tb("write")], ["SS:" + C.tlist(["a", "b"]), "S:" + C.tb("c")],
              ["S:" + C.tb("")], ["E:%s:%s" % (C.tb("foo"), C.tb("bar"))], ["E:%s:%s" % (C.tb("state"), C.tb("evil"))],
-             ["SS:."], ["U:" + C.tb("https://a/1"), "U:" + C.tb("https://a/2")]]
+             ["SS:."], ["U:" + C.tb("https://a/1"), "U:" + C.tb("https://a/2")],
+             ["E:%s:%s" % (C.tb("resource"), C.tb("a")), "E:%s:%s" % (C.tb("resource"), C.tb("b")), "E:%s:%s" % (C.tb("foo"), C.tb("1")), "E:%s:%s" % (C.tb("resource"), C.tb("c"))],
+             ["S:" + C.tb("a"), "SS:.", "S:" + C.tb("a")], ["E:%s:%s" % (C.tb("x"), C.tb("")), "E:%s:%s" % (C.tb("x"), C.tb(""))]]
+    for code in range(0x20, 0x7F):
+        ch = chr(code)
+        l = authurl_line(AUTH_ENDPOINTS[code % len(AUTH_ENDPOINTS)], "my" + ch + "client", None, "st" + ch + "ate",
+                         ["S:" + C.tb("s" + ch + "c")] + (["E:%s:%s" % (C.tb("k" + ch), C.tb(ch))]) + ["R:" + C.tb("code" + ch)])
+        if l:
+            out.append((l, "single-character"))
     for url in AUTH_ENDPOINTS:
         for defred in (None, "https://client/cb?x=1"):
             for ops in fixed:
